@@ -100,6 +100,9 @@ func (db *LDBDatabase) Put(key []byte, value []byte) error {
 		return ErrLDBInit
 	}
 	verifC05Write(db.db, "put", key, 1)
+	if err := verifC05Fault(db.db, "put", key, 1); err != nil {
+		return err
+	}
 	return db.db.Put(key, value, nil)
 }
 
@@ -131,6 +134,9 @@ func (db *LDBDatabase) Delete(key []byte) error {
 		return ErrLDBInit
 	}
 	verifC05Write(db.db, "del", key, 1)
+	if err := verifC05Fault(db.db, "del", key, 1); err != nil {
+		return err
+	}
 	return db.db.Delete(key, nil)
 }
 
@@ -181,6 +187,9 @@ func (b *ldbBatch) Put(key, value []byte) error {
 func (b *ldbBatch) Write() error {
 	b.logger.Debugf("batchWrite. length: %d ", b.size)
 	verifC05Write(b.db, "batch", nil, b.b.Len())
+	if err := verifC05Fault(b.db, "batch", nil, b.b.Len()); err != nil {
+		return err
+	}
 	return b.db.Write(b.b, nil)
 }
 
